@@ -410,24 +410,27 @@ def name_return(sig, counts):
 LOOP_RX = re.compile(r'\b(while|loop|for)\b')
 
 
-def splice_loops(body, loops, counts, body_hints=None, end_hints=None, before_hints=None):
+def splice_loops(body, loops, counts, body_hints=None, end_hints=None, before_hints=None, loop_kw=None, fname=''):
     """Insert invariant blocks after the n-th loop header (before its `{`); `body_hints` {n: ghost text}
     (from `%hint @loop n`) go at the start of the n-th loop's body, an anchor that does not depend on
     the text of any statement."""
     body_hints = body_hints or {}
     end_hints = end_hints or {}
     before_hints = before_hints or {}
+    loop_kw = loop_kw or {}
     if not loops and not body_hints and not end_hints and not before_hints:
         return body
     mask = code_mask(body)
     pos = []
     starts = []
+    kws = []
     i = 0
     while True:
         m = LOOP_RX.search(mask, i)
         if not m:
             break
         kw = m.group(1)
+        kws.append(kw)
         j = m.end()
         # header extends to the first '{' at paren depth 0 (struct literals in
         # loop headers do not occur in the extracted code)
@@ -448,6 +451,13 @@ def splice_loops(body, loops, counts, body_hints=None, end_hints=None, before_hi
         if n < 1 or n > len(pos):
             raise Lost('loop #%d not found (function has %d loops)' % (n, len(pos)))
         k = pos[n - 1]
+        if os.environ.get('VF_PRINT_LOOPS') and n in loops:
+            sys.stderr.write('LOOPKW %s %d %s\n' % (fname, n, kws[n - 1]))
+        if n in loop_kw and loop_kw[n] != kws[n - 1]:
+            # a loop contract (invariant / invariant_except_break / ensures / decreases) is written for one loop
+            # SHAPE; when the loop has been restructured (`loop { .. break }` <-> `while c { .. }` <-> `for`), the
+            # old contract says nothing about the new loop: no verdict rather than a failed proof
+            raise Lost('loop #%d is now a `%s` loop; its contract was written for a `%s` loop' % (n, kws[n - 1], loop_kw[n]))
         if n in end_hints:
             # `%hint @loop n end`: before the closing brace of the n-th loop's body (loops are not nested here)
             close = match_close(body, k)
@@ -592,6 +602,7 @@ class FnSpec:
         self.newname = None
         self.clauses = []
         self.loops = {}
+        self.loop_kw = {}
         self.hints = []
         self.closures = []
         self.opts = {}
@@ -907,6 +918,8 @@ def assemble(unit_path, repo, vf_dir):
                 if st.startswith('%loop'):
                     cur_loop = int(st.split()[1])
                     f.loops[cur_loop] = ''
+                    if len(st.split()) > 2:
+                        f.loop_kw[cur_loop] = st.split()[2]
                     mode = 'loop'
                     i += 1
                     continue
@@ -1013,7 +1026,7 @@ def assemble(unit_path, repo, vf_dir):
                     tgt = {'end': loop_end_hints, 'before': loop_before_hints}.get((ml.group(2) or '').strip(), loop_hints)
                     tgt[int(ml.group(1))] = tgt.get(int(ml.group(1)), '') + b
             f.hints = [(a, b) for a, b in f.hints if not re.match(r'@loop\s+\d+(\s+end|\s+before)?$', a)]
-            body = splice_loops(body, f.loops, A.counts, loop_hints, loop_end_hints, loop_before_hints)
+            body = splice_loops(body, f.loops, A.counts, loop_hints, loop_end_hints, loop_before_hints, f.loop_kw, f.name)
             body = splice_closures(body, f.closures, A.counts)
             body = splice_hints(body, f.hints, A.counts)
             qn = qual(f.newname or f.name)
